@@ -19,6 +19,17 @@ from pyvc.tables import Gen
 from pyvc.unit import find_def, segment_sha, NotGenerated
 
 
+EMPTINESS_REPRESENTATIVES = [
+    ("empty-list", lambda: []), ("empty-tuple", lambda: ()), ("empty-str", lambda: ""), ("empty-bytes", lambda: b""), ("empty-dict", lambda: {}),
+    ("empty-set", lambda: set()), ("empty-frozenset", lambda: frozenset()), ("empty-range", lambda: range(0)), ("empty-enumerate", lambda: enumerate(())),
+    ("empty-enumerate-str", lambda: enumerate("")), ("zip-no-arguments", lambda: zip()), ("zip-with-an-empty", lambda: zip([1, 2], [])),
+    ("empty-reversed", lambda: reversed([])), ("empty-sorted", lambda: sorted(())), ("empty-map", lambda: map(str, ())), ("empty-filter", lambda: filter(None, (0,))),
+    ("empty-iter", lambda: iter(())),
+    ("list", lambda: [0]), ("tuple", lambda: (None,)), ("str", lambda: "a"), ("dict", lambda: {0: 0}), ("set", lambda: {0}), ("range", lambda: range(1)),
+    ("enumerate", lambda: enumerate("a")), ("zip", lambda: zip([1], [2])), ("reversed", lambda: reversed([0])), ("iter", lambda: iter([0])),
+]
+
+
 def generate(g: Gen):
     fn, text = find_def("core", "is_blocking")
     g.sha = segment_sha(text, fn)
@@ -128,9 +139,26 @@ def generate(g: Gen):
     # ---- For
     sf = find("if isinstance(node, ast.For):")
     trf = sf.body[0]
-    if not (isinstance(trf, ast.Try) and ast.unparse(trf.body[0]) == "is_empty = not any((True for _ in literal_value(node.iter)))"
-            and ast.unparse(trf.handlers[0].body[-1]) == "return False"):
+    if not (isinstance(trf, ast.Try) and len(trf.body) == 1 and isinstance(trf.body[0], ast.Assign) and ast.unparse(trf.body[0].targets[0]) == "is_empty"
+            and len(trf.handlers) == 1 and ast.unparse(trf.handlers[0].body[-1]) == "return False"):
         raise NotGenerated("For branch: unknown / non-iterable constant must return False")
+    # the emptiness test is the real expression, evaluated on representative values of literal_value(node.iter): every kind
+    # of object literal_value can return for an iterable (constants.LITERAL_VALUE_FUNCTIONS), empty and not
+    import types
+    try:
+        code = compile(ast.Expression(trf.body[0].value), "<is_empty>", "eval")
+    except Exception as exc:  # noqa: BLE001
+        raise NotGenerated(f"For branch: emptiness test does not compile: {exc}")
+    for label, make in EMPTINESS_REPRESENTATIVES:
+        expected = len(list(make())) == 0
+        try:
+            got = bool(eval(code, {"literal_value": lambda _n, _m=make: _m(), "node": types.SimpleNamespace(iter=None), "any": any, "all": all, "len": len,
+                                   "list": list, "tuple": tuple, "bool": bool, "next": next, "iter": iter, "True": True, "False": False}))
+        except (ValueError, TypeError):
+            got = None  # handled: is_blocking returns False (never blocks), which is always safe
+        except Exception as exc:  # noqa: BLE001
+            raise NotGenerated(f"For branch: emptiness test raised {type(exc).__name__} on {label}")
+        g.oblige("table", f"For:is-empty-agrees-with-iteration:{label}", [], z3.BoolVal(got is None or got == expected or (got and not expected)), trf.lineno)
     hnames = {ast.unparse(x) for x in (trf.handlers[0].type.elts if isinstance(trf.handlers[0].type, ast.Tuple) else [trf.handlers[0].type])}
     g.oblige("table", "For:non-iterable-constant-handled", [], z3.BoolVal({"ValueError", "TypeError"} <= hnames), trf.lineno)
     guard = ast.unparse(sf.body[1])
